@@ -98,7 +98,7 @@ def specs(tier):
     out = []
     slabs = [(-3, -1), (-1, F(-1, 3)), (F(-1, 3), 0), (0, F(1, 3)), (F(1, 3), 1), (1, 3)]
     out.append(dict(module="checks.c05", scenario="Measure", params=dict(A="hbar", B="vbar", lim="1/3"), time_budget=150 if tier == "quick" else 2400))
-    for lo, hi in ((-1, F(-1, 3)), (F(-1, 3), F(1, 3)), (F(1, 3), 1)):
+    for lo, hi in ((F(-3, 2), F(-1, 2)), (F(-1, 2), F(1, 2)), (F(1, 2), 1), (1, F(3, 2))):
         out.append(dict(module="checks.c05", scenario="Measure", params=dict(A="square", B="hollow2", slab=[str(lo), str(hi)]), time_budget=150 if tier == "quick" else 2400))
     for a, b in pairs:
         for lo, hi in slabs:  # the parameter range is cut into slabs so that one pair uses several cores
